@@ -1149,6 +1149,33 @@ def Decoder_DecodePackedBool.body (fuel : Nat) : Decoder_DecodePackedBool.St →
 def Decoder_DecodePackedBool (fuel : Nat) (d_p : Bytes) (d_offset : BitVec 64) (d_mode : BitVec 64) (d_keyStart : BitVec 64) (d_keyEnd : BitVec 64) : Go.Out Decoder_DecodePackedBool.St Decoder_DecodePackedBool.R :=
   Decoder_DecodePackedBool.body fuel { d_p := d_p, d_offset := d_offset, d_mode := d_mode, d_keyStart := d_keyStart, d_keyEnd := d_keyEnd }
 
+/-! ### `Encoder.EncodePackedUInt64` (/repo/encoder.go:198:1) -/
+
+structure Encoder_EncodePackedUInt64.St where
+  e_p : Bytes
+  e_offset : BitVec 64
+  tag : BitVec 64
+  vs : List (BitVec 64)
+  sz : BitVec 64 := 0#64
+  v : BitVec 64 := 0#64
+
+abbrev Encoder_EncodePackedUInt64.R := Unit
+
+/-- the body of `Encoder_EncodePackedUInt64`, statement by statement -/
+def Encoder_EncodePackedUInt64.body (fuel : Nat) : Encoder_EncodePackedUInt64.St → Go.Out Encoder_EncodePackedUInt64.St Encoder_EncodePackedUInt64.R :=
+  (Go.seq (Go.seq (fun s => if ((BitVec.ofNat 64 s.vs.length) == 0#64) then (fun s => .ret () s) s else Go.skip s)
+    (Go.seq (fun s => if ((s.e_offset).toNat ≤ s.e_p.length) then match (EncodeTag fuel (s.e_p.drop (s.e_offset).toNat) s.tag 2#64) with | .ret r c => .next { s with e_p := s.e_p.take (s.e_offset).toNat ++ c.dest, e_offset := (s.e_offset + r) } | .next _ => .panic | .panic => .panic | .diverge => .diverge else .panic)
+    (Go.seq (fun s => .next { s with sz := 0#64 })
+    (Go.seq (Go.forEach (fun s => s.vs) (fun s x => { s with v := x })
+    (fun s => .next { s with sz := (s.sz + (SizeOfVarint s.v)) }))
+    (Go.seq (fun s => if ((s.e_offset).toNat ≤ s.e_p.length) then match (EncodeVarint fuel (s.e_p.drop (s.e_offset).toNat) s.sz) with | .ret r c => .next { s with e_p := s.e_p.take (s.e_offset).toNat ++ c.dest, e_offset := (s.e_offset + r) } | .next _ => .panic | .panic => .panic | .diverge => .diverge else .panic)
+    (Go.forEach (fun s => s.vs) (fun s x => { s with v := x })
+    (fun s => if ((s.e_offset).toNat ≤ s.e_p.length) then match (EncodeVarint fuel (s.e_p.drop (s.e_offset).toNat) s.v) with | .ret r c => .next { s with e_p := s.e_p.take (s.e_offset).toNat ++ c.dest, e_offset := (s.e_offset + r) } | .next _ => .panic | .panic => .panic | .diverge => .diverge else .panic)))))))
+    (fun s => .ret () s))
+
+def Encoder_EncodePackedUInt64 (fuel : Nat) (e_p : Bytes) (e_offset : BitVec 64) (tag : BitVec 64) (vs : List (BitVec 64)) : Go.Out Encoder_EncodePackedUInt64.St Encoder_EncodePackedUInt64.R :=
+  Encoder_EncodePackedUInt64.body fuel { e_p := e_p, e_offset := e_offset, tag := tag, vs := vs }
+
 /-! ### `Encoder.EncodeBool` (/repo/encoder.go:25:1) -/
 
 structure Encoder_EncodeBool.St where
